@@ -253,6 +253,46 @@ fn compare(doc: &ExecDoc, di: usize, got: &ExecDoc) -> Result<(), (String, Strin
     Ok(())
 }
 
+/// Exhaustive product over SEM_SCHEMA argument locations x variable type (as declared / non-null) x
+/// default value (none, null, each literal form of the type) x directive on the definition.
+pub fn var_matrix_docs() -> Vec<String> {
+    // (selection using $v, location type, literal defaults of that type)
+    let locs: [(&str, &str, &[&str]); 10] = [
+        ("users(first: $v, ids: []) { id }", "Int", &["0", "-7"]),
+        ("users(f: $v, ids: []) { id }", "Float", &["1.5", "2", "1e3"]),
+        ("users(filter: $v, ids: []) { id }", "Filter", &["{req: true}", "{req: false, kind: B, name: \"n\", ids: [\"a\", 2], nested: {req: true, min: 3}}"]),
+        ("users(kinds: $v, ids: []) { id }", "[Kind!]", &["[]", "[A, B]", "A"]),
+        ("users(ids: $v) { id }", "[ID!]!", &["[]", "[\"x\", 1]"]),
+        ("users(opt: $v, ids: []) { id }", "[String]", &["[null, \"s\"]", "\"single\"", "[\"a\\n\\\"q\\\" \\\\ é 😀\"]"]),
+        ("users(mat: $v, ids: []) { id }", "[[Int]]", &["[[1, null], null, []]", "[[]]"]),
+        ("users(at: $v, ids: []) { id }", "Stamp", &["\"2020\"", "12", "{a: 1}"]),
+        ("node(id: $v) { id }", "ID!", &["\"id\"", "5"]),
+        ("s @skip(if: $v)", "Boolean!", &["true", "false"]),
+    ];
+    let mut out = vec![];
+    for (sel, ty, lits) in locs {
+        let nullable = !ty.ends_with('!');
+        let mut types = vec![ty.to_string()];
+        if nullable {
+            types.push(format!("{ty}!"));
+        }
+        for t in &types {
+            let mut defaults: Vec<Option<String>> = vec![None];
+            if !t.ends_with('!') {
+                defaults.push(Some("null".into()));
+            }
+            defaults.extend(lits.iter().map(|l| Some(l.to_string())));
+            for d in &defaults {
+                for dirs in ["", " @tag(name: \"v\")", " @once @tag(name: \"a\") @tag(name: \"b\")"] {
+                    let def = d.as_ref().map_or(String::new(), |d| format!(" = {d}"));
+                    out.push(format!("query Q($v: {t}{def}{dirs}) {{ {sel} }}\n"));
+                }
+            }
+        }
+    }
+    out
+}
+
 pub fn run(args: &RunArgs) -> i32 {
     let rep = Reporter::new("C12", &args.tier);
     crate::util::install_hook();
@@ -265,22 +305,10 @@ pub fn run(args: &RunArgs) -> i32 {
     let pool = crate::worker::Pool::new("c12-loader", args.threads);
     let slot = std::sync::atomic::AtomicUsize::new(0);
     let sample: Mutex<Option<String>> = Mutex::new(None);
-    let (dev, budget) = if args.quick() { (4, 50) } else { (5, 2400) };
+    let (dev, budget) = if args.quick() { (3, 50) } else { (4, 2400) };
     thread_local! { static SLOT: std::cell::Cell<usize> = const { std::cell::Cell::new(usize::MAX) }; }
-    let stats = explore(&ExploreCfg { max_dev: dev, threads: args.threads, budget: Duration::from_secs(budget) }, |c: &mut Chooser| {
-        let mut doc = gen_doc(c, &sch, 2, true);
-        // variable defaults and directives on variable definitions, every value kind
-        if let ExecDef::Op { vars: Some((_, vs)), .. } = &mut doc.defs[0] {
-            match c.choose("c12.var_extra", 3) {
-                0 => {}
-                1 => vs[0].dirs.push(dir("tag", vec![("name", Value::Str(P::default(), "a\n\"b\"\\ é 😀".into()))])),
-                _ => {
-                    if vs[0].default.is_none() && !vs[0].ty.is_nonnull() {
-                        vs[0].default = Some(Value::Null(P::default()));
-                    }
-                }
-            }
-        }
+    let matrix_docs = AtomicU64::new(0);
+    let check_doc = |doc: ExecDoc, picks: Vec<u16>, deviations: usize| {
         let text = exec_text(&doc);
         if !distinct.insert(fnv(text.as_bytes())) {
             return;
@@ -293,13 +321,13 @@ pub fn run(args: &RunArgs) -> i32 {
             return;
         }
         checked.fetch_add(1, Ordering::Relaxed);
-        if c.deviations() == 3 {
+        if deviations == 3 {
             let mut s = sample.lock().unwrap();
             if s.is_none() {
                 *s = Some(text.clone());
             }
         }
-        let case = |route: &str, extra: J| json!({"text": text, "route": route, "picks": c.picks(), "detail": extra});
+        let case = |route: &str, extra: J| json!({"text": text, "route": route, "picks": picks, "detail": extra});
         let s = subject_schema();
         let ops = vec![(PathBuf::from("/p/a.graphql"), text.clone())];
         // route 1: the JS printer (what the loaders emit); route 2: standalone .graphql.ts
@@ -355,6 +383,33 @@ pub fn run(args: &RunArgs) -> i32 {
                 }
             }
         }
+    };
+    let stats = explore(&ExploreCfg { max_dev: dev, threads: args.threads, budget: Duration::from_secs(budget) }, |c: &mut Chooser| {
+        let mut doc = gen_doc(c, &sch, 2, true);
+        // variable defaults and directives on variable definitions, every value kind
+        if let ExecDef::Op { vars: Some((_, vs)), .. } = &mut doc.defs[0] {
+            match c.choose("c12.var_extra", 3) {
+                0 => {}
+                1 => vs[0].dirs.push(dir("tag", vec![("name", Value::Str(P::default(), "a\n\"b\"\\ é 😀".into()))])),
+                _ => {
+                    if vs[0].default.is_none() && !vs[0].ty.is_nonnull() {
+                        vs[0].default = Some(Value::Null(P::default()));
+                    }
+                }
+            }
+        }
+        check_doc(doc, c.picks(), c.deviations());
+    });
+    // the variable-definition matrix: every (location, variable type, default, directive) combination
+    let vm = var_matrix_docs();
+    crate::explore::par_for(vm.len(), args.threads, |i| {
+        match crate::rparse::parse_exec(&vm[i]) {
+            Ok(doc) => {
+                matrix_docs.fetch_add(1, Ordering::Relaxed);
+                check_doc(doc, vec![], 0);
+            }
+            Err(e) => rep.report(Violation { key: "machinery.var_matrix".into(), what: format!("R-PARSE cannot read {:?}: {e}", vm[i]), case: json!({}) }),
+        }
     });
     let cov = json!({
         "states": distinct.len(),
@@ -366,6 +421,7 @@ pub fn run(args: &RunArgs) -> i32 {
         "exhaustive": true,
         "explorer": stats_json(&stats),
         "documents_checked": checked.load(Ordering::Relaxed),
+        "variable_definition_matrix_documents": matrix_docs.load(Ordering::Relaxed),
         "embedded_documents_compared": compared.load(Ordering::Relaxed),
         "samples": [sample.lock().unwrap().clone().unwrap_or_default()],
     });
